@@ -79,6 +79,12 @@ static bool is_hash(Token *tok) {
   return tok->at_bol && !tok->origin && equal(tok, "#");
 }
 
+// True if tok begins the directive `name`. The name is on the line of
+// the `#`: a `#` followed by a new-line is a complete (null) directive.
+static bool is_directive(Token *tok, char *name) {
+  return is_hash(tok) && !tok->next->at_bol && equal(tok->next, name);
+}
+
 // Some preprocessor directives such as #include allow extraneous
 // tokens before newline. This function skips such tokens.
 static Token *skip_line(Token *tok) {
@@ -165,13 +171,12 @@ static Token *append(Token *tok1, Token *tok2) {
 
 static Token *skip_cond_incl2(Token *tok) {
   while (tok->kind != TK_EOF) {
-    if (is_hash(tok) &&
-        (equal(tok->next, "if") || equal(tok->next, "ifdef") ||
-         equal(tok->next, "ifndef"))) {
+    if (is_directive(tok, "if") || is_directive(tok, "ifdef") ||
+        is_directive(tok, "ifndef")) {
       tok = skip_cond_incl2(tok->next->next);
       continue;
     }
-    if (is_hash(tok) && equal(tok->next, "endif"))
+    if (is_directive(tok, "endif"))
       return tok->next->next;
     tok = tok->next;
   }
@@ -182,16 +187,14 @@ static Token *skip_cond_incl2(Token *tok) {
 // Nested `#if` and `#endif` are skipped.
 static Token *skip_cond_incl(Token *tok) {
   while (tok->kind != TK_EOF) {
-    if (is_hash(tok) &&
-        (equal(tok->next, "if") || equal(tok->next, "ifdef") ||
-         equal(tok->next, "ifndef"))) {
+    if (is_directive(tok, "if") || is_directive(tok, "ifdef") ||
+        is_directive(tok, "ifndef")) {
       tok = skip_cond_incl2(tok->next->next);
       continue;
     }
 
-    if (is_hash(tok) &&
-        (equal(tok->next, "elif") || equal(tok->next, "else") ||
-         equal(tok->next, "endif")))
+    if (is_directive(tok, "elif") || is_directive(tok, "else") ||
+        is_directive(tok, "endif"))
       break;
     tok = tok->next;
   }
@@ -844,7 +847,7 @@ static char *read_include_filename(Token **rest, Token *tok, bool *is_dquote) {
 //   #endif
 static char *detect_include_guard(Token *tok) {
   // Detect the first two lines.
-  if (!is_hash(tok) || !equal(tok->next, "ifndef"))
+  if (!is_directive(tok, "ifndef"))
     return NULL;
   tok = tok->next->next;
 
@@ -854,7 +857,7 @@ static char *detect_include_guard(Token *tok) {
   char *macro = strndup(tok->loc, tok->len);
   tok = tok->next;
 
-  if (!is_hash(tok) || !equal(tok->next, "define") || !equal(tok->next->next, macro))
+  if (!is_directive(tok, "define") || !equal(tok->next->next, macro))
     return NULL;
 
   // Read until the end of the file. The file is guarded only if the
@@ -862,7 +865,7 @@ static char *detect_include_guard(Token *tok) {
   // and the #ifndef has no #else or #elif.
   int depth = 0;
   while (tok->kind != TK_EOF) {
-    if (!is_hash(tok)) {
+    if (!is_hash(tok) || tok->next->at_bol) {
       tok = tok->next;
       continue;
     }
@@ -956,6 +959,10 @@ static Token *preprocess2(Token *tok) {
 
     Token *start = tok;
     tok = tok->next;
+
+    // `#`-only line is legal. It's called a null directive.
+    if (tok->at_bol)
+      continue;
 
     if (equal(tok, "include")) {
       bool is_dquote;
@@ -1085,10 +1092,6 @@ static Token *preprocess2(Token *tok) {
 
     if (equal(tok, "error"))
       error_tok(tok, "error");
-
-    // `#`-only line is legal. It's called a null directive.
-    if (tok->at_bol)
-      continue;
 
     error_tok(tok, "invalid preprocessor directive");
   }
